@@ -256,7 +256,8 @@ class Labels:
 class Real:
     """Executes one task spec with the real constructs."""
 
-    def __init__(self, tid, spec, excutils, fileutils, workdir):
+    def __init__(self, tid, spec, excutils, fileutils, workdir, shared=None):
+        self.shared = shared
         self.tid = tid
         self.spec = spec
         self.ex = excutils
@@ -430,6 +431,14 @@ class Real:
             filt = ef(pred)
         other = PlainErr('%s:other' % self.tid)
         self.objs['%s:other' % self.tid] = other
+        if s.get('shared') and self.shared is not None:
+            # one filter object used by several tasks at once (a module-level
+            # decorated function): the verdict travels with the exception
+            e0._verif_accept = accept
+            other._verif_accept = accept
+            filt = (self.shared['holder'].ignore if mode.startswith('bound')
+                    else self.shared['filt'])
+            calls = self.shared['calls']
         try:
             if mode in ('ctx', 'bound_ctx'):
                 with filt:
@@ -457,6 +466,9 @@ class Real:
             self.result = ('none',)
         except BaseException as e:
             self.result = ('raised', e, tb_sig(e.__traceback__))
+        if s.get('shared') and self.shared is not None:
+            mine = (e0, other)
+            calls = [x for x in calls if any(x is m for m in mine)]
         self.notes['pred_calls'] = calls
 
     def run_D(self, yield_fn):
@@ -537,8 +549,11 @@ class C09(Check):
             'exception classes (plain, mandatory constructor args, chained, '
             'already carrying a traceback, falsy instances, '
             'KeyboardInterrupt, SystemExit) '
-            'interleaved at yield points by the seeded scheduler (greenlets '
-            'or baton-passed threads). distinct = distinct (construct, '
+            'interleaved at yield points by the seeded scheduler (greenlets, '
+            'baton-passed threads, or baton-passed threads that are '
+            'additionally pre-empted at seeded line events inside excutils.py '
+            '/ fileutils.py); exception_filter objects may be shared between '
+            'tasks. distinct = distinct (construct, '
             'program shape, exception kind, outcome, engine, interleaved?) '
             'tuples')
     COMPONENTS = {
@@ -558,14 +573,16 @@ class C09(Check):
                    'greenlet saves/restores the interpreter exception state '
                    'per greenlet']
     FAULT_KINDS = ('exception_in_handler_body', 'inner_exception_caught',
-                   'task_switch_in_handler', 'remover_fails',
+                   'task_switch_in_handler', 'preemption_inside_construct',
+                   'remover_fails',
                    'reraise_toggled', 'force_reraise_direct')
     PROBES = ('original_reraised_same_object', 'new_exception_replaces',
               'reraise_off_nothing_raised', 'nested_block',
               'filter_suppressed', 'filter_propagated', 'interleaved_tasks',
               'logged_original_dropped', 'k9_shape',
               'second_block_on_same_exception',
-              'traceback_prefix_compared')
+              'traceback_prefix_compared',
+              'filter_object_shared_between_tasks')
 
     def setup(self):
         core.import_sut()
@@ -588,7 +605,18 @@ class C09(Check):
         else:
             tl = [gen_task(rng) for _ in range(n)]
         engine = st('engine').choice(('greenlet', 'thread', 'greenlet',
-                                      'plain'))
+                                      'plain', 'preempt'))
+        cs = [t for t in tl if t['c'] == 'C']
+        if len(cs) >= 2 and rng.random() < 0.6:
+            same = rng.choice((None, None, 'ctx', 'bound_ctx', 'call',
+                               'bound_call'))
+            for t in cs:
+                t['shared'] = True
+                if same:
+                    t['mode'] = same
+            # races on a shared object need pre-emption inside the construct
+            if st('engine').random() < 0.7:
+                engine = 'preempt'
         return {'engine': engine, 'tasks': tl,
                 'sched_seed': st('sched').randrange(1 << 30)}
 
@@ -615,13 +643,34 @@ class C09(Check):
         h = H(level=logging.ERROR)
         old_handlers = root.handlers[:]
         root.handlers[:] = [h]
-        reals = [Real(str(i), s, self.ex, self.fu, work)
+        shared = None
+        if any(t.get('shared') for t in case['tasks']):
+            shared_calls = []
+            ef = self.ex.exception_filter
+
+            def shared_pred(ex):
+                shared_calls.append(ex)
+                return getattr(ex, '_verif_accept', False)
+
+            class SharedHolder:
+                @ef
+                def ignore(self_, ex):
+                    shared_calls.append(ex)
+                    return getattr(ex, '_verif_accept', False)
+            shared = {'filt': ef(shared_pred), 'holder': SharedHolder(),
+                      'calls': shared_calls}
+            bump(pr, 'filter_object_shared_between_tasks')
+        reals = [Real(str(i), s, self.ex, self.fu, work, shared)
                  for i, s in enumerate(case['tasks'])]
         trace = []
         try:
-            tasks.run_tasks(case['engine'],
-                            [r.run for r in reals],
-                            random.Random(case['sched_seed']), trace)
+            st_ = tasks.run_tasks(case['engine'],
+                                  [r.run for r in reals],
+                                  random.Random(case['sched_seed']), trace,
+                                  files=('oslo_utils/excutils.py',
+                                         'oslo_utils/fileutils.py'))
+            if st_ and st_.get('preemptions'):
+                bump(fa, 'preemption_inside_construct', st_['preemptions'])
         finally:
             root.handlers[:] = old_handlers
             shutil.rmtree(work, ignore_errors=True)
@@ -897,6 +946,11 @@ class C09(Check):
             if t['c'] == 'A':
                 for c in self._prog_reductions(case, ti, t['prog'], []):
                     yield c
+            if t.get('shared'):
+                c = copy.deepcopy(case)
+                for t2 in c['tasks']:
+                    t2.pop('shared', None)
+                yield c
             for key in ('between', 'pre'):
                 if t.get(key):
                     c = copy.deepcopy(case)
